@@ -2,8 +2,10 @@ package mon
 
 import (
 	ipfslog "berty.tech/go-ipfs-log"
+	"berty.tech/go-ipfs-log/entry"
 	"bytes"
 	"fmt"
+	"github.com/ipfs/go-cid"
 	"math/bits"
 	"sync"
 	"sync/atomic"
@@ -401,6 +403,41 @@ func CheckC05(run *evid.Run) {
 					if err != nil {
 						run.Violate("C05/op-error", det("op", "concurrent merges of one source", "codec", h.Codec), wt, "merge %d of 3 concurrent merges of the same honest log failed: %v", g, err)
 						break
+					}
+				}
+			}
+		}
+		// an entry whose link lists REPEAT an element (legal, hand-built through the public constructor) held by one
+		// log and merged by another: the holder's object stays byte-identical (link lists included)
+		if i%4 == 2 && h.Codec != "pb" {
+			src := x.Logs[0]
+			for _, l := range x.Logs {
+				if l.Len() > src.Len() {
+					src = l
+				}
+			}
+			if vs := src.Values().Slice(); len(vs) >= 2 {
+				a, b := vs[len(vs)-1].GetHash(), vs[len(vs)-2].GetHash()
+				dup, err := entry.CreateEntryWithIO(x.W.Ctx, x.W.Store.API(), x.W.Idents[0], &entry.Entry{LogID: x.W.LogID, Payload: []byte(fmt.Sprintf("%d.%d/repeated-links", h.Seed, h.Idx)),
+					Next: []cid.Cid{a, a, b}, Refs: []cid.Cid{b, b, a}, Clock: entry.NewLamportClock(x.W.Idents[0].PublicKey, vs[len(vs)-1].GetClock().GetTime()+1)}, nil, x.W.IOv())
+				if err == nil {
+					ents := src.GetEntries()
+					ents.Set(dup.GetHash().String(), dup)
+					lo := x.W.LogOpts(x.W.LogID)
+					lo.Entries = ents
+					lo.Heads = []iface.IPFSLogEntry{dup}
+					if holder, err := ipfslog.NewLog(x.W.Store.API(), x.W.Idents[0], lo); err == nil {
+						before := hx.ObjectDigest(dup)
+						nextBefore := fmt.Sprint(hx.Cids(dup.GetNext()), hx.Cids(dup.GetRefs()))
+						fresh := x.W.NewLog(0)
+						_, jerr := fresh.Join(holder, -1)
+						run.Count("merges_of_a_log_holding_an_entry_with_repeated_links", 1)
+						if after := hx.ObjectDigest(dup); after != before {
+							wt := histSample(h)
+							wt["at"] = "after the history: a log holding a hand-built entry with next [a a b], refs [b b a] is merged by a fresh log"
+							run.Violate("C05/shared-entry-mutated", det("codec", h.Codec, "op", "merge by another log", "what", "link lists with a repeated element"), wt,
+								"an entry held by one log changed while ANOTHER log merged it (returned %v): links were %s, are now %s", jerr, nextBefore, fmt.Sprint(hx.Cids(dup.GetNext()), hx.Cids(dup.GetRefs())))
+						}
 					}
 				}
 			}
